@@ -100,6 +100,10 @@ def main(tier: str) -> int:
         # ---- predict = independent evaluation of the stored model
         Xn = np.vstack([X[:5], X[:2] * 0.5])
         pred = est.predict(Xn)
+        if np.shape(pred) != (len(Xn),):
+            chk.fail("predict does not return one value per row of X", {**d, "rows": len(Xn), "shape": list(np.shape(pred)),
+                                                                         "model": str(est.get_tree()) if hasattr(est, "tree_") else "net"}, {**feats, "clause": "predict_shape"})
+            continue
         Xb = np.hstack([Xn, np.ones((len(Xn), 1))]) if getattr(est, "offset", False) else Xn
         with np.errstate(all="ignore"):
             if name.startswith("GP") and not name.startswith("GPNN"):
@@ -235,6 +239,27 @@ def main(tier: str) -> int:
                          {"estimator": "GPClassifier", "stored_tree": tname, "labels": [str(l) for l in labels], "row": Xg[bad[0]].tolist(),
                           "proba": proba[bad[0]].tolist(), "predict": str(pred[bad[0]]), "expected": str(exp[bad[0]]), "tie_rows": ties},
                          {"estimator": "GPClassifier", "clause": "labels"})
+    # ---- GP regressor with a stored tree that contains no variable (constant targets, tiny budgets): still one value per row
+    from thefittest.base import TerminalNode
+    Xk, yk = E.data_regression(n=9, d=2, seed=seed)
+    estk = GeneticProgrammingRegressor(n_iter=2, pop_size=6, functional_set_names=("add", "mul"), random_state=seed)
+    estk.fit(Xk, yk)
+    usk = init_symbolic_regression_uniset(X=Xk, functional_set_names=("add", "mul"))
+    addk = next(n for n in usk._functional_set[2] if n._name == "add")
+    for tname, tr in (("7", Tree([TerminalNode(7.0, "7")])), ("(7 + 2)", Tree([addk, TerminalNode(7.0, "7"), TerminalNode(2.0, "2")]))):
+        estk.tree_ = tr
+        for rows in (Xk, Xk[:1], Xk[:4]):
+            try:
+                pk = estk.predict(rows)
+                okk = np.shape(pk) == (len(rows),) and np.allclose(np.asarray(pk, dtype=np.float64), float(tr()))
+            except Exception as e:  # noqa
+                pk, okk = repr(e)[:120], False
+            chk.count("gp_regressor_constant_tree")
+            chk.case(("gp_const", tname, len(rows)))
+            if not okk:
+                chk.fail("predict does not return one value per row of X", {"estimator": "GPRegressor", "stored_tree": tname, "rows": len(rows),
+                                                                             "got": str(np.shape(pk)) if not isinstance(pk, str) else pk}, {"estimator": "GPRegressor", "clause": "predict_shape"})
+                break
     # ---- reserved optimizer arguments are rejected, others accepted
     Xr, yr = E.data_regression(n=12, d=2, seed=seed)
     Xc, yc = E.data_classification(n=14, d=2, labels=("b", "a"), seed=seed)
